@@ -24,7 +24,7 @@ git -C /repo worktree remove --force $WT
 D=/verif/seeded/$P-$J
 mkdir -p $D
 cp $SRC/patch$I.diff $D/patch.diff; cp $SRC/demo$I.py $D/demo.py
-git -C /repo apply $D/patch.diff && ( cd /verif && bin/check $CP --tier quick > /tmp/confirm.check 2>&1 ); CR=$?
+git -C /repo apply $D/patch.diff && ( cd /verif && VERIF_EVIDENCE_DIR=/tmp/verif_seed_evidence bin/check $CP --tier quick > /tmp/confirm.check 2>&1 ); CR=$?
 git -C /repo checkout -- .
 tail -2 /tmp/confirm.check
 /venv/bin/python - <<PY
